@@ -8,6 +8,13 @@ S1 == {[d |-> 1, N |-> <<n>>, ch |-> c, modes |-> <<m>>, lin |-> l, skip |-> sk,
 S2 == {[d |-> 2, N |-> nn, ch |-> c, modes |-> mm, lin |-> l, skip |-> l, kind |-> kd,
         shifts |-> <<<<1, 0>>, <<0, 1>>, <<2, 3>>, <<nn[1] - 1, 1>>, <<3, nn[2] - 1>>, <<1, 2>>>>, refine |-> <<>>] :
           nn \in {<<4, 4>>, <<5, 8>>, <<8, 6>>}, c \in {1, 3}, mm \in {<<2, 2>>, <<3, 5>>, <<9, 9>>}, l \in BOOLEAN, kd \in {"layer", "fno"}}
-Scen == S1 \cup S2
+\* grids that oversample the kept modes 8 and more times (input content far above the kept band: random fields)
+S3 == {[d |-> 1, N |-> <<n>>, ch |-> c, modes |-> <<m>>, lin |-> l, skip |-> l, kind |-> kd,
+        shifts |-> [i \in 1..7 |-> <<IF i < 6 THEN i ELSE n - (i - 5)>>], refine |-> IF kd = "layer" THEN <<2>> ELSE <<>>] :
+          n \in {16, 24, 33}, c \in 1..2, m \in {2, 3}, l \in BOOLEAN, kd \in {"layer", "fno"}}
+S4 == {[d |-> 2, N |-> nn, ch |-> c, modes |-> mm, lin |-> l, skip |-> l, kind |-> kd,
+        shifts |-> <<<<1, 0>>, <<0, 1>>, <<3, 1>>, <<nn[1] - 1, 5>>>>, refine |-> <<>>] :
+          nn \in {<<16, 8>>, <<8, 24>>, <<16, 17>>}, c \in {2}, mm \in {<<2, 2>>, <<2, 3>>}, l \in BOOLEAN, kd \in {"layer", "fno"}}
+Scen == S1 \cup S2 \cup S3 \cup S4
 ASSUME ndJsonSerialize(IOEnv.OUT_FILE, SetToSeq(Scen)) /\ PrintT(<<"SCENARIOS", Cardinality(Scen)>>)
 ==========================================================================
